@@ -312,3 +312,28 @@ PROPS["C01"] = dict(
                  110: "the implementation built a transaction for a program the semantics gives no meaning to",
                  161: "another white-space / comment layout of the same program gives different transaction bytes"},
 )
+
+PEG_TB = TB_COMMON + [
+    "translator `tx3v extract` (harness/src/c12.rs): reads /repo/crates/tx3-lang/src/tx3.pest with pest_meta 2.7.15 (the parser pest itself uses for grammar files) and prints every rule as a Gallina term into coq/gen/Grammar.v on every run; it fails on any construct outside the subset Peg.v interprets",
+    "Peg.v re-implements pest's matching semantics (ordered choice, implicit WHITESPACE/COMMENT skipping outside atomic rules, predicates, built-in classes); it is compared with pest's verdict on every generated text (clause 1)",
+    "AST construction (parsing.rs) and the analyzer are not modelled here: they are observed under catch_unwind and a 20 s limit",
+]
+PROPS["C12"] = dict(
+    level="proof", runner="C12", uses_gen=True, model_files=["Base.v", "Peg.v", "gen/Grammar.v"], proof_files=["Peg_proofs.v"], check_files=["Peg_check.v"],
+    theorems=["C12_grammar_well_formed", "C12_matches_are_prefixes"],
+    partial=["the theorem about the current grammar is its well-formedness (no left recursion, no nullable repetition, no undefined rule), computed inside Coq on the generated grammar; that well-formedness implies termination of every run is the classical PEG result and is not re-proved here, the interpreter's fuel never ran out on any generated text (clause 1 fails otherwise)",
+             "panic-freedom of the AST construction and of the analyzer is observed on the generated texts (clauses 121-123), not proved"],
+    trusted_base=PEG_TB, assumptions=["texts up to 2500 bytes, nesting up to 64"],
+    keep_ids=_only(lambda i: i == 1 or 120 <= i < 130),
+    check_names={1: "acceptance by the generated grammar under Peg.v differs from pest's verdict (or the interpreter ran out of fuel)",
+                 121: "parse_string panicked", 122: "analyze panicked", 123: "no answer within 20 s"},
+)
+PROPS["C19"] = dict(
+    level="proof", runner="C19", uses_gen=True, model_files=["Base.v", "Peg.v", "gen/Grammar.v"], proof_files=["Peg_proofs.v"], check_files=["Peg_check.v"],
+    theorems=["C19_positions_within_text", "C19_position_is_consumed_length"],
+    partial=["the theorem bounds the positions of the modelled parser; that the implementation attaches those positions to the text it carries is checked on every diagnostic of every generated erroneous text (clauses 191-194)"],
+    trusted_base=PEG_TB, assumptions=[],
+    keep_ids=_only(lambda i: i == 1 or 190 <= i < 200),
+    check_names={191: "a parse error's label ends outside the text the error carries", 192: "a parse error's label does not fall on character boundaries of that text",
+                 193: "an analysis error's span lies outside the input", 194: "a not-in-scope error's span does not cover the reported name"},
+)
